@@ -631,7 +631,7 @@ pub fn plan_for(id: &str, tier: &str) -> Option<Plan> {
             p.binary_every = if thorough { 6 } else { 16 };
             p.n_random = n(140, 2500);
             p.long = (n(1, 12), n(400, 2000));
-            p.required = vec!["AddSnapshot|", "|conflict", "|accepted", "legacy-fork-directory:abandoned1:live1:nil-base", "legacy-fork-directory:abandoned3:live"];
+            p.required = vec!["AddSnapshot|", "|conflict", "|accepted", "legacy-fork-directory:abandoned1:live1:nil-base", "legacy-fork-directory:abandoned3:live", "locked-open|exclusive-locking-mode|", "locked-open|open-write-transaction|"];
             p.rule = "every accepted (version, parent, payload) is re-read through GetChildVersion after later operations (a random third after every operation, all of them every 10 operations, after every reopen and at the end), across snapshots, rejected requests, other clients' activity and reopen. distinct_nontrivial = distinct situations that occurred while accepted versions were being re-read. Concurrent part: uncontrolled stress (6-12 threads on one storage / one SQLite object per thread / sockets) after which every version whose acceptance was acknowledged must still be served with its parent and payload. Legacy forks: directories written by the pinned crates in which a client was re-created (two children of one parent) - the pinned code's answers for every id are the reference for the current code, before and after appending.";
         }
         "C08" => {
